@@ -360,3 +360,39 @@ fire('C06', 'splitter-behaviour-no-cancel', 'C06.R4', 'Splitter.behaviour',
 silent('C06', 'machine-lookup-var-renamed',
        lambda p: M.replace_node(p, N_MAC, 'Machine.behaviour', M.assign_to('self.chosen_event'),
                                 'self.chosen_event = next((ev for ev in self.in_edge_events if ev.triggered), None)'))
+
+# ============================================================================================ C18
+fire('C18', 'prs-get-no-level-update', 'C18.R1', 'ReservablePriorityReqStore',
+     lambda p: M.delete_stmt(p, S_PRS, 'ReservablePriorityReqStore.get', M.stmt_calling('self._update_time_averaged_level')))
+fire('C18', 'buffer-put-no-level-update', 'C18.R1', 'BufferStore._do_put',
+     lambda p: M.delete_stmt(p, S_BUF, 'BufferStore._do_put', M.stmt_calling('self._update_time_averaged_level')))
+fire('C18', 'fleet-get-level-before-removal', 'C18.R1', 'FleetStore._do_get',
+     lambda p: M.chain(p, lambda q: M.delete_stmt(q, S_FLT, 'FleetStore._do_get', M.stmt_calling('self._update_time_averaged_level')),
+                       lambda q: M.insert_before(q, S_FLT, 'FleetStore._do_get', M.assign_to('ev_idx'), 'self._update_time_averaged_level()')))
+fire('C18', 'buffer-level-items-only', 'C18.R2', 'BufferStore._update_time_averaged_level',
+     lambda p: M.replace_node(p, S_BUF, 'BufferStore._update_time_averaged_level', M.assign_to('self._last_num_items'), 'self._last_num_items = len(self.items)'))
+fire('C18', 'conveyor-final-level-ready-only', 'C18.R2', 'update_final_conveyor_avg_content',
+     lambda p: M.replace_node(p, E_CC, 'ConveyorBelt.update_final_conveyor_avg_content', M.assign_to('self.belt._last_num_items'),
+                              'self.belt._last_num_items = len(self.belt.ready_items)'))
+fire('C18', 'rs-level-refreshed-before-integration', 'C18.R3', 'ReservableReqStore._update_time_averaged_level',
+     lambda p: M.chain(p, lambda q: M.delete_stmt(q, S_RS, 'ReservableReqStore._update_time_averaged_level', M.assign_to('self._last_num_items')),
+                       lambda q: M.insert_before(q, S_RS, 'ReservableReqStore._update_time_averaged_level', M.assign_to('self._weighted_sum'),
+                                                 'self._last_num_items = len(self.items)')))
+fire('C18', 'fleet-edge-final-wrong-interval', 'C18.R3', 'Fleet.update_final_fleet_avg_content',
+     lambda p: M.replace_node(p, E_FLT, 'Fleet.update_final_fleet_avg_content', M.assign_to('interval'), 'interval = now'))
+fire('C18', 'machine-processed-double-count', 'C18.R4', 'Machine.worker',
+     lambda p: M.insert_before(p, N_MAC, 'Machine.worker', M.assign_to('itemput'), "self.stats['num_item_processed'] += 1"))
+fire('C18', 'sink-cycle-time-overwritten', 'C18.R5', 'Sink.behaviour',
+     lambda p: M.replace_node(p, N_SNK, 'Sink.behaviour', M.assign_to("self.stats['total_cycle_time']"),
+                              "self.stats['total_cycle_time'] = self.env.now - self.item_in_process.timestamp_creation"))
+fire('C18', 'sink-cycle-time-from-node-entry', 'C18.R5', 'Sink.behaviour',
+     lambda p: M.replace_node(p, N_SNK, 'Sink.behaviour', M.assign_to("self.stats['total_cycle_time']"), sub('timestamp_creation', 'timestamp_node_exit')))
+fire('C18', 'item-creation-stamp-zero', 'C18.R6', 'set_creation',
+     lambda p: M.replace_node(p, 'helper/baseflowitem.py', 'BaseFlowItem.set_creation', M.assign_to('self.timestamp_creation'), 'self.timestamp_creation = 0'))
+fire('C18', 'conveyor-entry-stamp-shifted', 'C18.R6', 'ConveyorBelt.put',
+     lambda p: M.replace_node(p, E_SC, 'ConveyorBelt.put', M.assign_to('item.conveyor_entry_time'), 'item.conveyor_entry_time = self.env.now + self.delay'))
+silent('C18', 'prs-extra-level-update',
+       lambda p: M.insert_before(p, S_PRS, 'ReservablePriorityReqStore.put', M.if_testing('self.reservations_put'), 'pass'))
+silent('C18', 'buffer-level-summands-swapped',
+       lambda p: M.replace_node(p, S_BUF, 'BufferStore._update_time_averaged_level', M.assign_to('self._last_num_items'),
+                                'self._last_num_items = len(self.ready_items) + len(self.items)'))
